@@ -36,6 +36,7 @@ def _run(ctx: Ctx, seqs, suite: str):
 def explore(ctx: Ctx, scale: int):
     rng = ctx.rng
     _run(ctx, [sf.random_seq(rng, rng.randrange(2, 14)) for _ in range(1500 * scale)], "fs-random")
+    _run(ctx, [sf.history_seq(rng) for _ in range(400 * scale)], "fs-histories")
     if scale > 1:
         _run(ctx, list(sf.exhaustive(3)), "fs-exhaustive-depth3")
         ctx.exhaustive = True
